@@ -8,6 +8,8 @@ python3 translate/footprint.py > /dev/null 2>&1 || true
 python3 -c "import sys; sys.path.insert(0,'.'); from checks import c17_tables; c17_tables.write_lean()" > /dev/null 2>&1 || true
 python3 translate/gen_primes.py > /dev/null 2>&1 || true
 python3 translate/gen_smf.py > /dev/null 2>&1 || true
+python3 translate/gen_smf_domains.py > /dev/null 2>&1 || true
+python3 translate/gen_rational.py > /dev/null 2>&1 || true
 python3 translate/aliasfp.py > /dev/null 2>&1 || true
 python3 -m vlib.genroot
 cd lean
